@@ -914,6 +914,33 @@ def byte_order_family():
     return mods
 
 
+def typed_virtual_family():
+    """Seed-independent: virtual fields that are WRITABLE through a transform (an alias with its own [requires], or
+    an add/subtract chain) of every value type.  UpdateFromText() of the structure instantiates the text reader of
+    each of them; the reader has to be the one of the field's type (fix dadb5dc: enum and boolean fields used the
+    integer reader, which does not compile for an enum class)."""
+    mods = []
+    head = ('[$default byte_order: "LittleEndian"]\nenum Kind:\n  AA = 0\n  BB = 1\n'
+            "struct Foo:\n  0 [+1]  Kind  ke\n  1 [+1]  UInt  nu\n  2 [+1]  bits:\n    0 [+1]  Flag  fl\n")
+    shapes = [
+        ("enum-alias-requires", "  let ve = ke\n    [requires: this == Kind.BB]\n", [("ve", "venum")]),
+        ("bool-alias-requires", "  let vb = fl\n    [requires: this]\n", [("vb", "vbool")]),
+        ("int-alias-requires", "  let vi = nu\n    [requires: this < 100]\n", [("vi", "vint_w")]),
+        ("int-chain", "  let vi = nu + 3\n", [("vi", "vint_w")]),
+        ("all-three", "  let ve = ke\n    [requires: this == Kind.AA || this == Kind.BB]\n  let vb = fl\n    [requires: this || !this]\n"
+                      "  let vi = 10 - nu\n    [requires: this > 0 - 300]\n", [("ve", "venum"), ("vb", "vbool"), ("vi", "vint_w")]),
+    ]
+    for label, body, virt in shapes:
+        fs = [("ke", "enum"), ("nu", "uint"), ("fl", "flag")] + virt
+        mods.append(dict(
+            files={"m.emb": head + body}, main="m.emb", namespace=["emboss_generated_code"],
+            features=["typed-virtual-family:" + label], scopes=[],
+            structs=[dict(name="Foo", cpp=["Foo"], params=[], size=3, fields=[dict(name=n, cls=c) for n, c in fs], nested=False,
+                          dynamic=False)],
+            enums=[]))
+    return mods
+
+
 def corpus_modules():
     return [json.load(open(p)) for p in sorted(glob.glob(os.path.join(fw.VERIF, "corpus", "C07", "*.json")))]
 
@@ -1017,5 +1044,5 @@ def _run_check(ctx):
     macros = gen_names.system_macros(gen_names.STANDARDS)
     ctx.extra["system_macros_not_reserved"] = len([m for m in macros if m not in reserved and
                                                     (gen_names.SHOUTY_RE.match(m) or gen_names.SNAKE_RE.match(m))])
-    mods = corpus_modules() + gate_family() + byte_order_family() + generate(ctx, 150 if ctx.thorough() else 10, reserved, macros)
+    mods = corpus_modules() + gate_family() + byte_order_family() + typed_virtual_family() + generate(ctx, 150 if ctx.thorough() else 10, reserved, macros)
     run_modules(ctx, mods)
